@@ -34,9 +34,10 @@ const (
 	c08ProfProd         // ProdUsageThresholds (+ default whole-node thresholds for the other pods)
 	c08ProfAgg          // Aggregated thresholds on p95/5m (+ default whole-node thresholds, which aggregated replaces)
 	c08ProfNode         // thresholds from the node's usage-thresholds annotation override the plugin arguments
+	c08ProfNodeProd     // the node's annotation alone sets PROD thresholds (the arguments carry none): per-field merge (seed C08-7)
 )
 
-var c08ProfNames = []string{"whole-node", "prod", "aggregated", "node-annotation"}
+var c08ProfNames = []string{"whole-node", "prod", "aggregated", "node-annotation", "node-annotation-prod"}
 
 const (
 	c08MFresh = iota
@@ -77,7 +78,13 @@ var c08Allocs = []c08Alloc{
 	{Name: "amplified-16c(raw 8c)16Gi", Status: c08Vec{16000, 16 << 30}, Raw: &c08Vec{8000, 16 << 30}, Physical: c08Vec{8000, 16 << 30}},
 }
 
-func c08Node(a c08Alloc, annoThr *c08Vec) *corev1.Node {
+func c08Node(a c08Alloc, annoThr *c08Vec, prod ...bool) *corev1.Node {
+	if annoThr != nil && len(prod) > 0 && prod[0] {
+		n := c08Node(a, nil)
+		b, _ := json.Marshal(&extension.CustomUsageThresholds{ProdUsageThresholds: map[corev1.ResourceName]int64{corev1.ResourceCPU: annoThr[0], corev1.ResourceMemory: annoThr[1]}})
+		n.Annotations[extension.AnnotationCustomUsageThresholds] = string(b)
+		return n
+	}
 	n := &corev1.Node{ObjectMeta: metav1.ObjectMeta{Name: "n", Annotations: map[string]string{}}, Status: corev1.NodeStatus{Allocatable: c08RL(a.Status)}}
 	if a.Raw != nil {
 		extension.SetNodeRawAllocatable(n, c08RL(*a.Raw))
@@ -185,7 +192,7 @@ func c08FArgs(c c08FCase) *config.LoadAwareSchedulingArgs {
 		a.UsageThresholds = thrMap(c08DefaultThr)
 		a.Aggregated = &config.LoadAwareSchedulingAggregatedArgs{UsageThresholds: thrMap(c.Thr), UsageAggregationType: extension.P95,
 			UsageAggregatedDuration: metav1.Duration{Duration: 5 * time.Minute}}
-	case c08ProfNode:
+	case c08ProfNode, c08ProfNodeProd:
 		a.UsageThresholds = thrMap(c08DefaultThr)
 	}
 	return a
@@ -196,7 +203,7 @@ func c08FArgs(c c08FCase) *config.LoadAwareSchedulingArgs {
 // aggregated thresholds apply when configured, otherwise the whole-node thresholds; node annotation beats arguments).
 func c08Applicable(c c08FCase, in c08PodSpec) (thr c08Vec, q c08Query, name string) {
 	switch c.Prof {
-	case c08ProfProd:
+	case c08ProfProd, c08ProfNodeProd:
 		if in.isProd() && !c.Thr.zero() {
 			return c.Thr, c08Query{Name: "prod", Prod: true}, "prod"
 		}
@@ -319,10 +326,10 @@ func c08RunFilter(c c08FCase) (j c08FJudged) {
 	clk := &c08Clock{t: c08Now0}
 	pl := c08NewPlugin(args, clk)
 	var annoThr *c08Vec
-	if c.Prof == c08ProfNode {
+	if c.Prof == c08ProfNode || c.Prof == c08ProfNodeProd {
 		annoThr = &c.Thr
 	}
-	node := c08Node(al, annoThr)
+	node := c08Node(al, annoThr, c.Prof == c08ProfNodeProd)
 	ni := framework.NewNodeInfo()
 	ni.SetNode(node)
 	if c.Metric != c08MMissing {
@@ -517,7 +524,7 @@ func c08FilterParts(env *mc.Env) {
 	c08FilterPart(env, "filter-threshold",
 		"every combination of threshold profile, cpu/memory thresholds, allocatable, scaling factors, existing-pod scenario, resource driven to the boundary, boundary target {0, thr-1u, thr, thr+1u, thr+0.5%-1u, thr+0.5%, thr+0.5%+1u, 102% of allocatable}, incoming pod and prod-usage-includes-system switch; fresh metric, default expiry switches",
 		[]c08FDim{
-			idx("profile", 4, func(c *c08FCase, i int) { fixed(c); c.Prof = i }),
+			idx("profile", 5, func(c *c08FCase, i int) { fixed(c); c.Prof = i }),
 			idx("thrCPU", len(thrCPU), func(c *c08FCase, i int) { c.Thr[0] = thrCPU[i] }),
 			idx("thrMem", len(thrMem), func(c *c08FCase, i int) { c.Thr[1] = thrMem[i] }),
 			idx("alloc", len(c08Allocs), func(c *c08FCase, i int) { c.Alloc = i }),
